@@ -561,6 +561,18 @@ fn one_scenario(acc: &mut Acc, job: &Job, idx: u64, sc: &StreamScenario, info: &
         }
     };
     let want_sample = acc.out.samples.len() < acc.want_samples;
+    // the scenario's own fault list (C07/C08: occasional transient read errors) is
+    // applied in a second run; the first one is always fault-free
+    let faulted_sc: Option<StreamScenario> = if sc.faults.is_empty() { None } else { Some(sc.clone()) };
+    let base_sc;
+    let sc: &StreamScenario = if faulted_sc.is_some() {
+        let mut b = sc.clone();
+        b.faults.clear();
+        base_sc = b;
+        &base_sc
+    } else {
+        sc
+    };
     let calib = run_once(sc, &sut, want_sample);
     acc.absorb_run(idx, &calib);
     let sig = sc_signature(sc);
@@ -568,6 +580,17 @@ fn one_scenario(acc: &mut Acc, job: &Job, idx: u64, sc: &StreamScenario, info: &
     if let Some(v) = judge_fault_free(sc, &sut, &rf, &calib) {
         acc.fail(idx, info.class, &v, sc);
         return;
+    }
+    if let Some(fsc) = &faulted_sc {
+        if !sc.reads.iter().any(|s| matches!(s, ReadStep::SoftEof)) {
+            let run = run_once(fsc, &sut, false);
+            acc.absorb_run(idx, &run);
+            acc.probe("transient_read_error_polled_on", (run.item_errs.len() >= 1 && run.ended) as u64);
+            if let Some(v) = judge_faulted(fsc, &calib, &run, false) {
+                acc.fail(idx, info.class, &v, fsc);
+                return;
+            }
+        }
     }
     let nmatches = rf.matches_full.iter().filter(|m| m.2 <= calib.delivered).count();
     let nontrivial = probes_fault_free(acc, sc, info, &calib, nmatches);
